@@ -600,12 +600,16 @@ func (u *unitCtx) condItem(it Item) {
 		if is, ok := n.(*ast.IfStmt); ok && strings.Contains(exprText(u.l.fset, is.Cond), it.Anchor) {
 			hits = append(hits, is.Cond)
 		}
+		// the condition of a `for cond { … }` loop (the loop itself stays outside the subset: only its test is taken)
+		if fs, ok := n.(*ast.ForStmt); ok && fs.Cond != nil && strings.Contains(exprText(u.l.fset, fs.Cond), it.Anchor) {
+			hits = append(hits, fs.Cond)
+		}
 		return true
 	})
 	var cond ast.Expr
 	switch {
 	case len(hits) == 0:
-		u.fail(fd, "cond %s: no if condition of %s mentions %q (anchor not found)", it.Name, it.Func, it.Anchor)
+		u.fail(fd, "cond %s: no if / for condition of %s mentions %q (anchor not found)", it.Name, it.Func, it.Anchor)
 	case it.Occur == 0 && len(hits) != 1:
 		u.fail(fd, "cond %s: %d if conditions of %s mention %q, expected exactly one", it.Name, len(hits), it.Func, it.Anchor)
 	case it.Occur > len(hits):
@@ -688,6 +692,17 @@ func assignsTo(u *unitCtx, s ast.Stmt, anchor string) bool {
 		}
 	case *ast.IncDecStmt:
 		return norm(a.X) == anchor
+	case *ast.DeclStmt:
+		// `var ( … x = e … )` declares (and so assigns) x
+		if gd, ok := a.Decl.(*ast.GenDecl); ok && gd.Tok == token.VAR {
+			for _, sp := range gd.Specs {
+				for _, nm := range sp.(*ast.ValueSpec).Names {
+					if nm.Name == anchor {
+						return true
+					}
+				}
+			}
+		}
 	}
 	return false
 }
@@ -814,6 +829,14 @@ func translateUnit(l *loader, unit *Unit) (text string, err error) {
 	fmt.Fprintf(&b, "-- GENERATED by translators/go2lean from the current source of %s/%s — do not edit.\n", "/repo", unit.Dir)
 	b.WriteString("-- Subset, representation and what is trusted: notes/go2lean.md. Agreement theorems: FitProps/*Go2Lean*.lean.\n")
 	b.WriteString("import FitModel.GoPrelude\n")
+	var imps []string
+	for k := range u.imports {
+		imps = append(imps, k)
+	}
+	sort.Strings(imps)
+	for _, k := range imps {
+		fmt.Fprintf(&b, "import FitModel.Generated.Go_%s\n", k)
+	}
 	b.WriteString("set_option linter.unusedVariables false\n")
 	fmt.Fprintf(&b, "namespace Go.%s\n\n", unit.Name)
 	for _, o := range u.out {
@@ -847,11 +870,6 @@ func main() {
 		os.Exit(2)
 	}
 	repo, outdir := os.Args[1], os.Args[2]
-	l, err := newLoader(repo)
-	if err != nil {
-		fmt.Fprintln(os.Stderr, "go2lean:", err)
-		os.Exit(1)
-	}
 	status := 0
 	for _, name := range os.Args[3:] {
 		var unit *Unit
@@ -865,6 +883,13 @@ func main() {
 			os.Exit(2)
 		}
 		out := filepath.Join(outdir, "Go_"+unit.Name+".lean")
+		// a loader of its own for every unit: a package imported (without bodies) while an earlier unit was translated and
+		// type-checked again (with bodies) for this one would exist twice, and its types would no longer be identical
+		l, err := newLoader(repo)
+		if err != nil {
+			fmt.Fprintln(os.Stderr, "go2lean:", err)
+			os.Exit(1)
+		}
 		text, err := translateUnit(l, unit)
 		if err != nil {
 			fmt.Fprintf(os.Stderr, "go2lean: unit %s: %v\n", name, err)
